@@ -178,6 +178,8 @@ def shard(sh):
     hs = {}
     try:
         for k in range(sh["n"]):
+            if run.enough():
+                break
             case = make_case(rng)
             nt = any(x != "none" for x in case["hostile"]) or any(p.get("chunks") for p in case["progs"])
             run.case(common.sha12(case), nontrivial=nt)
